@@ -31,16 +31,42 @@ TRUSTED_BASE = [
 ]
 
 
+def _kill_tree(pid):
+    """SIGKILL pid and all its descendants (children stay in the caller's process group and session, so
+    that whoever kills the check's group also kills them; on OUR timeout the tree is walked via /proc)"""
+    import signal
+    kids = {}
+    for d in os.listdir("/proc"):
+        if d.isdigit():
+            try:
+                with open("/proc/%s/stat" % d) as f:
+                    st = f.read()
+                pp = int(st[st.rindex(")") + 2:].split()[1])
+                kids.setdefault(pp, []).append(int(d))
+            except (OSError, ValueError, IndexError):
+                pass
+    todo, seen = [pid], []
+    while todo:
+        x = todo.pop(); seen.append(x); todo.extend(kids.get(x, []))
+    for x in reversed(seen):
+        try: os.kill(x, signal.SIGKILL)
+        except OSError: pass
+
+
 def sh(cmd, timeout=None, cwd=None, env=None):
+    """run a command; on timeout the whole process tree is killed (a `make` that is killed alone leaves
+    its coqc children running for hours)"""
     t0 = time.time()
+    p = subprocess.Popen(cmd, shell=isinstance(cmd, str), cwd=cwd, env=env or ENV, stdout=subprocess.PIPE,
+                         stderr=subprocess.STDOUT, text=True)
     try:
-        p = subprocess.run(cmd, shell=isinstance(cmd, str), cwd=cwd, env=env or ENV,
-                           stdout=subprocess.PIPE, stderr=subprocess.STDOUT, timeout=timeout, text=True)
-        return p.returncode, p.stdout, time.time() - t0
-    except subprocess.TimeoutExpired as e:
-        out = e.stdout or ""
-        if isinstance(out, bytes): out = out.decode("utf-8", "replace")
-        return 124, out + "\n[timeout after %ss]" % timeout, time.time() - t0
+        out, _ = p.communicate(timeout=timeout)
+        return p.returncode, out, time.time() - t0
+    except subprocess.TimeoutExpired:
+        _kill_tree(p.pid)
+        try: out, _ = p.communicate(timeout=30)
+        except Exception: out = ""
+        return 124, (out or "") + "\n[timeout after %ss]" % timeout, time.time() - t0
 
 
 def sha_files(paths):
@@ -276,7 +302,10 @@ def correspondence(bdir, modules, cases, log, tag, shard=250, timeout=900):
     from concurrent.futures import ThreadPoolExecutor
     cdir = os.path.join(bdir, "gen")
     res = {"n": len(cases), "failing": [], "kinds": {}, "libm_calls": 0, "errors": [], "samples": []}
-    shards = [list(range(i, min(i + shard, len(cases)))) for i in range(0, len(cases), shard)]
+    # interleaved shards: expensive cases (planetary series) come in runs, a contiguous block of them
+    # made one shard run for tens of minutes
+    nsh = max(1, -(-len(cases) // shard))
+    shards = [list(range(k, len(cases), nsh)) for k in range(nsh)]
     jobs = []
     for k, idxs in enumerate(shards):
         name = "cases_%s_%d" % (tag, k)
